@@ -115,6 +115,11 @@ def loop_binding(name: str, at: ast.AST
             names = {n.id for n in ast.walk(tgt) if isinstance(n, ast.Name)}
             if name not in names:
                 continue
+            # a snapshot of the view binds the same (key, value) pairs
+            while isinstance(it, ast.Call) and isinstance(it.func, ast.Name) \
+                    and it.func.id in ("list", "tuple") and \
+                    len(it.args) == 1 and not it.keywords:
+                it = it.args[0]
             if isinstance(it, ast.Call) and isinstance(it.func, ast.Name) \
                     and it.func.id == "enumerate" and it.args and \
                     isinstance(tgt, ast.Tuple) and len(tgt.elts) == 2:
